@@ -98,6 +98,21 @@ fn universes(tier: Tier) -> Vec<GenParams> {
             }
         }
     }
+    // a parent whose referrals carry glue of one family only for a dual-stack nameserver
+    // (the other family is learnt from the nameserver's own zone by an earlier question)
+    for depth in 1..=2usize {
+        for glue in [4u8, 6] {
+            for style in [NsStyle::SiblingApexNs, NsStyle::InZoneGlue, NsStyle::InParent] {
+                for additional in [true, false] {
+                    let mut p = GenParams::simple(depth, style, 1);
+                    p.families = vec![Family::Dual; depth + 2];
+                    p.send_additional = additional;
+                    p.glue_family = glue;
+                    out.push(p);
+                }
+            }
+        }
+    }
     if tier == Tier::Thorough {
         // two nameservers per zone with different families are covered by Dual
         // hosts; add a few two-nameserver universes for the order dimension
@@ -264,6 +279,7 @@ fn replay_json(p: &GenParams, mode: ProtocolMode, port: u16, fwd: bool, steps: &
             "send_additional": p.send_additional,
             "chase_in_reply": p.chase_in_reply,
             "v6_glue_first": p.v6_glue_first,
+            "glue_family": p.glue_family,
             "families": p.families.iter().map(|f| format!("{f:?}")).collect::<Vec<_>>(),
         },
         "mode": format!("{mode}"),
@@ -298,12 +314,15 @@ fn run_item(tier: Tier, params: &[GenParams], i: usize, acc: &mut JsonAcc) {
     let q_ext = question(&prepend(b"ext", &leaf), qt(RecordType::A));
     let q_missing = question(&prepend(b"missing", &leaf), qt(RecordType::TXT));
     let q_nsv6 = question(&ns_hosts(p, p.depth)[0], qt(RecordType::AAAA));
+    let q_nsv4 = question(&ns_hosts(p, p.depth)[0], qt(RecordType::A));
     let histories: Vec<Vec<Step>> = vec![
         vec![Step::Ask(q_www.clone())],
         vec![Step::Ask(q_ext.clone())],
         vec![Step::Ask(q_missing.clone()), Step::Ask(q_www.clone())],
         vec![Step::Ask(q_nsv6.clone()), Step::Ask(q_www.clone())],
         vec![Step::Ask(q_www.clone()), Step::Advance(std::time::Duration::from_secs(301)), Step::Ask(q_ext.clone())],
+        vec![Step::Ask(q_nsv4.clone()), Step::Ask(q_www.clone())],
+        vec![Step::Ask(q_nsv6.clone()), Step::Ask(q_ext.clone())],
     ];
     for (hi, steps) in histories.iter().enumerate() {
         let user_qs: Vec<Question> = steps
@@ -377,7 +396,7 @@ fn run_item(tier: Tier, params: &[GenParams], i: usize, acc: &mut JsonAcc) {
                     // resolution, where nameserver addresses have to be looked up: what a failed
                     // lookup leaves behind must not change which family is contacted afterwards
                     let glueless = p.styles.iter().any(|s| matches!(s, NsStyle::Sibling | NsStyle::SiblingApexNs));
-                    if !fwd && hi <= 1 && port == 53 && glueless {
+                    if !fwd && hi <= 1 && port == 53 && glueless && p.glue_family == 0 {
                         let mut fspec = spec.clone();
                         fspec.faults = fault_menu();
                         fspec.fault_window = 12;
